@@ -6,6 +6,8 @@ import (
 	"errors"
 	"fmt"
 	"io"
+	"runtime"
+	"sync/atomic"
 	"testing"
 	"time"
 
@@ -36,6 +38,11 @@ type round struct {
 	SendAfter int `json:"send_after_packets,omitempty"`
 	// Extra status bits OR-ed into the packet headers (ATTNACK 0x02, EVENT 0x08), cycled
 	Extra []int `json:"extra_status_bits,omitempty"`
+	// Hold > 0: the last Hold packets of the response arrive only after the consumer has
+	// started on the first part (it runs in its own goroutine then); Wait: the consumer
+	// passes wait=true instead of polling with wait=false
+	Hold int  `json:"packets_arriving_while_the_consumer_is_underway,omitempty"`
+	Wait bool `json:"consumer_waits,omitempty"`
 }
 
 type c03Case struct {
@@ -102,19 +109,38 @@ func runCase(c c03Case) (f *vh.Failure) {
 			vh.HarnessBug("encode: %v", err)
 		}
 		packets := rc.Packetise(stream, r.Cuts, rc.BufResponse, 0)
-		for i, p := range packets {
-			if r.Send && r.SendAfter > 0 && (i == r.SendAfter || (i == 0 && r.SendAfter >= len(packets))) {
-				// the client's send call returns only now, with the response partly arrived
-				if f := send(); f != nil {
-					return f
+		hold := r.Hold
+		if hold >= len(packets) {
+			hold = len(packets) - 1
+		}
+		if r.Send && r.SendAfter > 0 && len(packets)-hold <= r.SendAfter {
+			hold = 0 // the request has to be out before the consumer starts
+		}
+		var allFed atomic.Bool
+		underway := make(chan struct{}, 1)
+		feed := func(from, to int) *vh.Failure {
+			for i := from; i < to; i++ {
+				p := packets[i]
+				if r.Send && r.SendAfter > 0 && (i == r.SendAfter || (i == 0 && r.SendAfter >= len(packets))) {
+					// the client's send call returns only now, with the response partly arrived
+					if f := send(); f != nil {
+						return f
+					}
+					vh.Label("send-completes-after-first-response-packets")
 				}
-				vh.Label("send-completes-after-first-response-packets")
+				st := p.Status
+				if len(r.Extra) > 0 {
+					st |= byte(r.Extra[i%len(r.Extra)])
+				}
+				ch.WritePacket(&tds.Packet{Header: tds.PacketHeader{MsgType: tds.TDS_BUF_RESPONSE, Status: tds.PacketHeaderStatus(st), Length: uint16(8 + len(p.Body))}, Data: p.Body})
 			}
-			st := p.Status
-			if len(r.Extra) > 0 {
-				st |= byte(r.Extra[i%len(r.Extra)])
-			}
-			ch.WritePacket(&tds.Packet{Header: tds.PacketHeader{MsgType: tds.TDS_BUF_RESPONSE, Status: tds.PacketHeaderStatus(st), Length: uint16(8 + len(p.Body))}, Data: p.Body})
+			return nil
+		}
+		if f := feed(0, len(packets)-hold); f != nil {
+			return f
+		}
+		if hold == 0 {
+			allFed.Store(true)
 		}
 		model, synthetic := respgen.Deliver(r.Pkgs)
 		fmts := respgen.FormatBefore(model)
@@ -140,73 +166,137 @@ func runCase(c c03Case) (f *vh.Failure) {
 		wctx, wcancel := context.WithTimeout(bg, 2*time.Second)
 		aborted := false
 		gotFinal := false
-		switch r.Strategy {
-		case "next":
-			for !gotFinal {
-				p, err := ch.NextPackage(wctx, false)
-				if err != nil {
-					wcancel()
-					return vh.Failf(cls("C03/missing-final-done"), "%s: after %d packages [%s] NextPackage returns %v before a final DONE was seen (expected [%s])", where, len(seen), kinds(seen), err, respgen.Describe(model))
-				}
-				seen = append(seen, p)
-				gotFinal = isFinal(p)
+		progress := func() {
+			select {
+			case underway <- struct{}{}:
+			default:
 			}
-		case "until", "nilcb":
-			calls := 0
-			lastAct := 0
-			var cb func(tds.Package) (bool, error)
-			if r.Strategy == "until" {
-				cb = func(p tds.Package) (bool, error) {
+		}
+		consume := func() *vh.Failure {
+			switch r.Strategy {
+			case "next":
+				for !gotFinal {
+					fed := allFed.Load()
+					p, err := ch.NextPackage(wctx, r.Wait)
+					if errors.Is(err, tds.ErrNoPackageReady) && !fed && wctx.Err() == nil {
+						progress()
+						runtime.Gosched()
+						continue
+					}
+					progress()
+					if err != nil {
+						wcancel()
+						return vh.Failf(cls("C03/missing-final-done"), "%s: after %d packages [%s] NextPackage returns %v before a final DONE was seen (expected [%s])", where, len(seen), kinds(seen), err, respgen.Describe(model))
+					}
 					seen = append(seen, p)
-					act := 0
-					if calls < len(r.Plan) {
-						act = r.Plan[calls]
+					gotFinal = isFinal(p)
+				}
+			case "until", "nilcb":
+				calls := 0
+				lastAct := 0
+				var cb func(tds.Package) (bool, error)
+				if r.Strategy == "until" {
+					cb = func(p tds.Package) (bool, error) {
+						progress()
+						seen = append(seen, p)
+						act := 0
+						if calls < len(r.Plan) {
+							act = r.Plan[calls]
+						}
+						calls++
+						lastAct = act
+						if isFinal(p) {
+							gotFinal = true
+						}
+						switch act {
+						case 1:
+							return true, nil
+						case 2:
+							return false, io.EOF
+						case 3:
+							return false, errCB
+						case 4:
+							// an error that merely wraps io.EOF is not "an unwrapped io.EOF": the rest
+							// of the response has to be consumed like for any other error
+							return false, fmt.Errorf("%w (and the consumer's own failure: %w)", errCB, io.EOF)
+						}
+						if isFinal(p) {
+							return true, nil // the consumer's own end condition
+						}
+						return false, nil
 					}
-					calls++
-					lastAct = act
-					if isFinal(p) {
-						gotFinal = true
+				}
+				for !gotFinal && !aborted {
+					lastAct = 0
+					fed := allFed.Load()
+					_, err := ch.NextPackageUntil(wctx, r.Wait, cb)
+					if errors.Is(err, tds.ErrNoPackageReady) && !fed && wctx.Err() == nil {
+						progress()
+						runtime.Gosched()
+						continue
 					}
-					switch act {
-					case 1:
-						return true, nil
-					case 2:
-						return false, io.EOF
-					case 3:
-						return false, errCB
-					case 4:
-						// an error that merely wraps io.EOF is not "an unwrapped io.EOF": the rest
-						// of the response has to be consumed like for any other error
-						return false, fmt.Errorf("%w (and the consumer's own failure: %w)", errCB, io.EOF)
+					if (lastAct == 3 || lastAct == 4) && !errors.Is(err, errCB) {
+						wcancel()
+						return vh.Failf("C03/callback-error-not-returned", "%s: the callback failed (plan action %d) but NextPackageUntil returned %v", where, lastAct, err)
 					}
-					if isFinal(p) {
-						return true, nil // the consumer's own end condition
+					switch {
+					case err == nil:
+						if r.Strategy == "nilcb" {
+							gotFinal = true // the whole response is consumed by contract
+						}
+					case err == io.EOF:
+						if r.Strategy == "nilcb" {
+							gotFinal = true
+						}
+					case errors.Is(err, errCB):
+						aborted = true
+					default:
+						wcancel()
+						return vh.Failf(cls("C03/missing-final-done"), "%s: NextPackageUntil returns %v after the callback saw [%s] (expected [%s])", where, err, kinds(seen), respgen.Describe(model))
 					}
-					return false, nil
 				}
 			}
-			for !gotFinal && !aborted {
-				lastAct = 0
-				_, err := ch.NextPackageUntil(wctx, false, cb)
-				if (lastAct == 3 || lastAct == 4) && !errors.Is(err, errCB) {
+			return nil
+		}
+		if hold == 0 {
+			if f := consume(); f != nil {
+				wcancel()
+				return f
+			}
+		} else {
+			res := make(chan *vh.Failure, 1)
+			go func() { res <- consume() }()
+			// the rest arrives once the consumer is underway (it has been handed a package,
+			// or has found nothing ready yet), or blocked in its wait
+			select {
+			case <-underway:
+			case <-time.After(2 * time.Millisecond):
+			}
+			for i := len(packets) - hold; i < len(packets); i++ {
+				time.Sleep(50 * time.Microsecond)
+				if f := feed(i, i+1); f != nil {
 					wcancel()
-					return vh.Failf("C03/callback-error-not-returned", "%s: the callback failed (plan action %d) but NextPackageUntil returned %v", where, lastAct, err)
+					return f
 				}
-				switch {
-				case err == nil:
-					if r.Strategy == "nilcb" {
-						gotFinal = true // the whole response is consumed by contract
-					}
-				case err == io.EOF:
-					if r.Strategy == "nilcb" {
-						gotFinal = true
-					}
-				case errors.Is(err, errCB):
-					aborted = true
-				default:
+				if i == len(packets)-1 {
+					allFed.Store(true)
+				}
+			}
+			select {
+			case f := <-res:
+				if f != nil {
 					wcancel()
-					return vh.Failf(cls("C03/missing-final-done"), "%s: NextPackageUntil returns %v after the callback saw [%s] (expected [%s])", where, err, kinds(seen), respgen.Describe(model))
+					return f
 				}
+			case <-time.After(5 * time.Second):
+				wcancel()
+				return vh.Failf("C03/consumer-blocked", "%s: the consumer did not finish although the whole response has arrived", where)
+			}
+			vh.Label("rest-of-response-arrives-while-consumer-underway")
+			if r.Wait {
+				vh.Label("consumer-waits")
+			} else {
+				vh.Label("consumer-polls")
 			}
 		}
 		wcancel()
@@ -295,6 +385,10 @@ func genRound(rt *rapid.T) round {
 	if rapid.IntRange(0, 2).Draw(rt, "extrabits") == 0 {
 		r.Extra = rapid.SliceOfN(rapid.SampledFrom([]int{0, 0x02, 0x08, 0x0a}), 1, 3).Draw(rt, "extra")
 	}
+	if len(r.Cuts) > 0 && rapid.IntRange(0, 2).Draw(rt, "hold?") == 0 {
+		r.Hold = rapid.IntRange(1, 3).Draw(rt, "hold")
+	}
+	r.Wait = rapid.IntRange(0, 2).Draw(rt, "wait") == 0
 	r.Strategy = rapid.SampledFrom([]string{"next", "until", "until", "nilcb"}).Draw(rt, "strategy")
 	if r.Strategy == "until" {
 		n := rapid.IntRange(0, 8).Draw(rt, "planlen")
